@@ -519,7 +519,11 @@ func structSources(c *vh.Ctx) []string {
 	r := vh.NewRand(c.Seed*7919 + 13)
 	for i := range features {
 		e, libs := features[i].Gen(r, fmt.Sprintf("st%d", i))
-		srcs = append(srcs, assemble([]string{e}))
+		if features[i].Whole {
+			srcs = append(srcs, "<?php\n"+e)
+		} else {
+			srcs = append(srcs, assemble([]string{e}))
+		}
 		for _, l := range libs {
 			srcs = append(srcs, l)
 		}
@@ -546,7 +550,9 @@ func structStream(c *vh.Ctx, m *vh.Model) {
 	parsed, failed := 0, 0
 	pdir := filepath.Join(c.Scratch, "probe")
 	os.MkdirAll(pdir, 0o755)
-	for i, src := range structSources(c) {
+	srcs := structSources(c)
+	learnCarriers(c, srcs, pdir)
+	for i, src := range srcs {
 		prog, perr := parseSnippet(src, filepath.Join(pdir, fmt.Sprintf("s%d.php", i)))
 		if prog == nil {
 			failed++
@@ -554,6 +560,7 @@ func structStream(c *vh.Ctx, m *vh.Model) {
 			continue
 		}
 		parsed++
+		nsCoverage(c, prog)
 		before := len(inst)
 		collect(reflect.ValueOf(prog), map[uintptr]bool{}, inst, 0)
 		if len(inst) > before {
@@ -615,6 +622,8 @@ func structStream(c *vh.Ctx, m *vh.Model) {
 	}
 	orderStream(c, m)
 	fuseStream(c, m)
+	ctxStream(c, m, inst, "")
+	resolveStream(c, m)
 	if os.Getenv("C16_NOPROBE") == "" { // development aid: see only what the differential run reports
 		scalarStream(c, m, inst, nil)
 	}
@@ -717,6 +726,15 @@ func structReplay(c *vh.Ctx, m *vh.Model, rc replayCase) {
 			return
 		}
 		scalarStream(c, m, inst, rc.Scalar)
+		return
+	}
+	if rc.Kind == "ctx" {
+		learnCarriers(c, structSources(c), pdir)
+		if _, ok := inst[rc.Type]; ok {
+			ctxStream(c, m, inst, rc.Type)
+		} else {
+			c.Note("replay: no instance of %s found", rc.Type)
+		}
 		return
 	}
 	if rc.Kind == "order" {
